@@ -38,14 +38,27 @@ def evaluator_funcs(m):
 
 def check(m, run):
     funcs = evaluator_funcs(m) + [m.func('helpers.surface_deriv_cpts'), m.func('helpers.curve_deriv_cpts')]
-    rl.ly1_canonical(m, run, funcs)
+    # point evaluation and the derivative tables are decided as exact identities on symbolic basis tables and control points (EVX, A36S,
+    # A34S); the rules that read the index / loop spelling of the evaluators corroborate
+    from .. import skel_drivers as _sd0
+    n0 = len(run.obs)
+    _sd0.evx(m, run)
+    _sd0.a36s(m, run)
+    _sd0.a34s(m, run)
+    sem_ok = all(o.ok for o in run.obs[n0:])
+    with run.corroborating(sem_ok, 'EVX/A36S/A34S', rules=('LY1.canonical-stride', 'LY1.index-matches-layout', 'BP1.basis-axis-pairing', 'RP1.rational-projection', 'GO1.grid-order')):
+        rl.ly1_canonical(m, run, evaluator_funcs(m))
+        bp1(m, run, funcs)
+        rp1(m, run)
+        grid_order(m, run)
+    rl.ly1_canonical(m, run, [m.func('helpers.surface_deriv_cpts'), m.func('helpers.curve_deriv_cpts')])
     run.floor('LY1.canonical-stride', 4, 'surface/volume evaluators and surface_deriv_cpts')
     ra.HELPER_SCALARS.setdefault('linspace', [0, 1, 2])
     ra.ax1_helper_calls(m, run, funcs + [fi for fi in m.funcs.values() if fi.mod == 'BSpline' and fi.name in ('evaluate', 'evaluate_single', 'evaluate_list', 'derivatives')])
     run.floor('AX1.helper-call-one-axis', 10, 'find_spans/basis_functions/linspace/_span_func calls')
-    bp1(m, run, funcs)
+    from . import c16 as _c16
+    _c16.sample_count_getters(m, run)       # the sampled grid has the documented size: no getter truncates 1 / delta
     c17.ev1_ag3(m, run)
-    rp1(m, run)
     c17.dom1(m, run)
     ep1(m, run)
     ep2(m, run)
@@ -58,7 +71,6 @@ def check(m, run):
     from .. import ops_common as oc
     oc.unit_range_rule(m, run, ('evaluate', 'evaluate_single', 'evaluate_list'))
     run.floor('RG2.no-unit-range-test-for-un-normalised-shapes', 8, 'evaluate / evaluate_single / evaluate_list of the three shape classes')
-    grid_order(m, run)
     try:
         from .. import skel_drivers
         skel_drivers.c01(m, run)
